@@ -615,6 +615,19 @@ func dbFamily(c *mon.Ctx) {
 				}
 			}
 		}
+		// several block-index rows written by one flush: invalidate a block below the tip and reconsider it (the
+		// chain ends where it was, every row from that block up has been rewritten twice in a batch)
+		if r.Chance(2, 3) && len(w.blocks) >= 4 {
+			at := 1 + r.Intn(len(w.blocks)-2)
+			h := w.blocks[at].Header.BlockHash()
+			if err := n.chain.InvalidateBlock(&h); err != nil {
+				k.Failf("db:InvalidateBlock:error", "block %d of %d: %v", at+1, len(w.blocks), err)
+			} else if err := n.chain.ReconsiderBlock(&h); err != nil {
+				k.Failf("db:ReconsiderBlock:error", "block %d of %d: %v", at+1, len(w.blocks), err)
+			}
+			k.Count("db.index-rows-flushed-in-a-batch", int64(len(w.blocks)-at))
+			k.Count("db.chains-with-batch-flush", 1)
+		}
 		if err := n.chain.FlushUtxoCache(blockchain.FlushRequired); err != nil {
 			k.Failf("db:FlushUtxoCache:error", "%v", err)
 		}
@@ -639,6 +652,7 @@ func dbFamily(c *mon.Ctx) {
 		k.Eval(mon.Sig("db", nblocks, len(w.utxo), len(spentOps)), true)
 	})
 	c.Require("db.chains", 20)
+	c.Require("db.chains-with-batch-flush", 10)
 	c.Require("db.utxo.raw", 1000)
 	for _, cl := range []string{"p2pkh", "p2sh", "p2pk-comp", "p2pk-uncomp", "other"} {
 		c.Require("db.utxo.raw."+cl, 15)
